@@ -82,3 +82,42 @@ def _x_expr_cases(rng, n, tier):
 
 base.register(base.Family("expr_value_x", ["C03"], _x_expr_cases, FL.check_script, weight=0.1,
                           bound="6 shapes", rule="integer ** 0 and chains over integer variables: value and integer kind"))
+
+
+def _x_tdm_cases(rng, n, tier):
+    """C15: only names of the exact form p<digits> are p-arrays; look-alikes (p1_mask, p2x, p_1, pp1) are ordinary variables passed by value"""
+    for i in range(n):
+        nm = ["p1_mask", "p2x", "p_1", "pp1", "p12a", "p0_"][i % 6]
+        a, b = rng.randint(1, 9), rng.randint(1, 9)
+        script = ("name t\nversion 1.0\ntype tdm (temporal_modes=2)\n\nint array p0 =\n    %d, %d\nint array %s =\n    %d, %d\n\n"
+                  "Mask(%s) | 0\nRgate(p0) | 1\nK(m=%s) | 2\n" % (a, b, nm, b, a, nm, nm))
+        yield {"class": "p-lookalike-name-passed-by-value", "input": {"script": script, "lookalike": nm, "rows": [[b, a]], "p0": [[a, b]]}}
+
+
+def _x_tdm_check(case):
+    import numpy as np
+    import blackbird
+    i = case["input"]
+    p = blackbird.loads(i["script"])
+    ops = p.operations
+    a0 = ops[0]["args"][0]
+    if not (isinstance(a0, np.ndarray) and a0.tolist() == i["rows"]):
+        return {"expected": "argument of Mask is the array %r (an ordinary variable is passed by value)" % i["rows"], "actual": repr(a0)}
+    if ops[1]["args"][0] != "p0":
+        return {"expected": "argument of Rgate is the name 'p0'", "actual": repr(ops[1]["args"][0])}
+    k = ops[2]["kwargs"]["m"]
+    if not (isinstance(k, np.ndarray) and k.tolist() == i["rows"]):
+        return {"expected": "keyword m is the array %r" % i["rows"], "actual": repr(k)}
+    if p.parameters:
+        return {"expected": "no free parameters", "actual": repr(p.parameters)}
+    q = blackbird.loads(blackbird.dumps(p))
+    d = base.program_diff(p, q, exact=True)
+    if d:
+        return {"expected": "round trip preserves the program", "actual": d}
+    if "p0" not in q.variables or q.variables["p0"].tolist() != i["p0"]:
+        return {"expected": "p0 preserved", "actual": repr(q.variables.get("p0"))}
+    return None
+
+
+base.register(base.Family("tdm_x", ["C15"], _x_tdm_cases, _x_tdm_check, weight=0.15, bound="6 look-alike names",
+                          rule="tdm program with one real p-array and one array whose name merely starts with p<digits>"))
